@@ -65,7 +65,7 @@ func (sp *c02Spec) expectedView(trailersSupported bool) string {
 }
 
 func c02KeepField(k string) bool {
-	return strings.HasPrefix(k, "X-") || k == "Content-Type"
+	return strings.HasPrefix(k, "X-") || k == "Content-Type" || k == "Cache-Control" || k == "Pragma"
 }
 
 func c02ViewString(status int, h, tr http.Header, body []byte, end string) string {
